@@ -275,6 +275,7 @@ func init() {
 	planRegistry["C07"] = planC07
 	planRegistry["C10"] = planC10
 	planRegistry["C13"] = planC13
+	planRegistry["C08"] = planC08
 	planRegistry["C18"] = planC18
 	planRegistry["C14"] = planC14
 	planRegistry["C09"] = planC09
@@ -854,5 +855,60 @@ func planC18(tier string) *Plan {
 	}
 	p.Outside = []string{"sequences longer than the bound", "the Go runtime's own scheduling latency (trusted; the natively replayed bound allows 30 ms)", "concurrent use from several goroutines", "Extend before the first Reset (undocumented use)"}
 	p.Explanation = "Symbolic execution of the real timer.New/Reset/Extend/stop/drain/C/Height/View against a model of Go's runtime timers and channels, with every clock reading a fresh non-decreasing solver variable. After each operation sequence the harness observes C() and the solver proves: Height/View are the latest reset's; the timer delivers; the delivery instant is >= (clock just before the latest Reset) + its duration + all extensions since (never early) and <= (clock after the last operation) + that total (no lost time); after a zero-duration reset the value is available at once and is that reset's own instant (no stale expiry of an earlier reset). Blocking forever (send on a full channel, receive on an empty one) is an implicit-panic violation."
+	return p
+}
+
+func planC08(tier string) *Plan {
+	p := &Plan{Property: "C08", Tier: tier, Patterns: []string{"."}, PanicsCount: true}
+	add := func(n, my, prim, amev, ntx, early, dup int) {
+		p.Jobs = append(p.Jobs, &Job{Pkg: dbftPkg, Entry: "H_c08", Solver: "z3-new", Want: []string{"C08"}, BudgetS: 3000,
+			Params: map[string]int{"n": n, "my": my, "prim": prim, "amev": amev, "ntx": ntx, "early": early, "dup": dup}})
+	}
+	// N=4 first (the long jobs), then the small ones
+	for _, my := range []int{1, 3, 0} {
+		add(4, my, 0, 0, 1, 0, 0)
+	}
+	add(4, 2, 0, 0, 0, 1, 0)
+	add(4, 1, 0, 0, 0, 2, 0)
+	if tier == "thorough" {
+		add(4, 2, 0, 0, 1, 0, 1)
+		add(4, 0, 0, 0, 0, 0, 1)
+		add(4, 1, 2, 0, 1, 2, 0)
+		add(4, 3, 2, 0, 0, 1, 1)
+	}
+	for _, amev := range []int{0, 1} {
+		for _, my := range []int{0, 1, 2} {
+			for _, early := range []int{0, 1, 2} {
+				for _, dup := range []int{0, 1} {
+					if my == 0 && early > 0 {
+						continue // the primary's peers cannot answer a proposal that does not exist yet
+					}
+					if amev == 1 && dup == 1 && tier != "thorough" {
+						continue // 7 deliveries of 6 messages: 15120 orders, 25 min per role
+					}
+					add(3, my, 0, amev, 1-amev, early, dup)
+				}
+			}
+		}
+	}
+	for _, my := range []int{0, 1} {
+		add(2, my, 0, 0, 0, 0, 1)
+		add(1, 0, 0, 0, 0, 0, 0)
+	}
+	p.MustCover = []string{"C08.round.delivered", "event.processblock", "event.processpreblock"}
+	p.MustAssert = []string{"C08.decided", "C08.view0", "C08.nocomplaints", "C08.own.messages", "C08.block", "C08.early.cached", "C08.entered"}
+	p.Assumptions = append([]string{
+		"fault-free round: the N-1 peers are played by the harness and send exactly the messages honest validators send for the proposal (valid signatures/pre-commit data, responses naming the proposal); all application callbacks succeed; every proposed transaction is available locally",
+		"synchronous: no timeout is delivered during the round",
+		"the multi-node statement follows because in a fault-free round each validator's emissions depend only on what it received, and every receive order is one of the permutations explored for that validator",
+	}, commonAssumptions...)
+	p.Bounds = map[string]string{
+		"validators": "N = 4 without the anti-MEV extension (6 peer messages, all 720 orders per role), N = 3 with and without it (6 resp. 4 messages), N = 1, 2",
+		"orders":     "EVERY delivery order of the round's messages at one validator (forks on fresh boolean picks); quick: up to 2 messages delivered before the height is entered (future-message cache + Reset) and one duplicated message at N = 3; thorough adds duplicates and early prefixes at N = 4",
+		"contents":   "ledger height and tip, timestamps, nonce, transaction hash, clock, signature randomisers symbolic",
+		"heights":    "one round; entering it either by Start or by Reset from the previous height with early messages cached",
+	}
+	p.Outside = []string{"anti-MEV at N = 4 (9 messages: 362880 orders)", "N >= 5", "several consecutive rounds in one run (covered by the inductive step checks C05/C10 instead)", "a watch-only observer (not a validator): it does not decide from consensus messages when all commits reach it before the proposal -- observed, stated here, outside the statement"}
+	p.Explanation = "Bounded symbolic execution of the real Start/Reset/OnReceive sequence at one validator for a complete fault-free round: the executor forks on every choice of the next message, so every delivery order (including orders in which responses, pre-commits and commits precede the proposal, messages that arrive before the height is entered and go through the cache, and a duplicated message) is explored, each with all message contents symbolic. At the end of every order the solver proves: the block was handed over exactly once, in view 0, it is the proposed block; no ChangeView and no RecoveryRequest was broadcast; own proposal/response/commit at most once. No implicit panic on any path."
 	return p
 }
